@@ -1,7 +1,7 @@
 (* C02 — a sat answer is never given for an unsatisfiable assertion set.  Theorems only. *)
 From Coq Require Import ZArith QArith List Bool.
 From OsmtV.Sem Require Import Syntax Eval Model SemProofs.
-From OsmtV.Cnf Require Import Gen_TseitinTemplates TseitinModel TseitinProofs.
+From OsmtV.Cnf Require Import Gen_TseitinTemplates TseitinModel TseitinProofs TruthTable.
 Import ListNotations.
 
 (* Every `sat` answer whose printed model passes the verified evaluator is correct. *)
@@ -32,6 +32,12 @@ Theorem tseitin_complete : forall f,
   (forall rho, eval rho f = true -> cnf_holds (eval rho) f = true).
 Proof. exact tseitin_equisat. Qed.
 Print Assumptions tseitin_complete.
+
+(* The per-run tie: the extracted truth-table checker that compares the clauses actually handed to the SAT engine
+   with the preprocessed formula is sound and complete for propositional validity. *)
+Theorem cnf_tie_checker_decides : forall f, tt_valid f = true <-> (forall rho, eval rho f = true).
+Proof. intros f. split; [apply tt_valid_sound | apply tt_valid_complete]. Qed.
+Print Assumptions cnf_tie_checker_decides.
 
 Example c02_nonvacuous :
   let f := FAnd [FOr [FAtom 1; FNot (FAtom 2)]; FXor (FAtom 2) (FAtom 3); FImp (FAtom 1) (FIff (FAtom 3) (FAtom 1))] in
